@@ -51,10 +51,13 @@ VP_KEYS = {
     "cosmwasm_std::Binary::new", "std::vec::Vec::into_boxed_slice", "std::hint::must_use",
     "std::string::String::into_bytes", "std::slice::<impl [T]>::iter", "std::slice::<impl [T]>::to_vec",
     "std::vec::Vec::into_iter", "std::collections::BTreeMap::iter", "std::mem::take",
+    "std::collections::VecDeque::iter", "std::collections::VecDeque::iter_mut", "std::collections::VecDeque::into_iter",
+    "std::collections::BTreeSet::iter", "std::collections::BTreeSet::into_iter", "std::collections::BTreeMap::into_iter",
+    "std::collections::BTreeMap::iter_mut", "std::vec::Vec::iter", "std::vec::Vec::iter_mut",
     "cosmwasm_std::CanonicalAddr::as_slice", "cosmwasm_std::Checksum::as_slice", "cosmwasm_std::HexBinary::as_slice",
     "cosmwasm_std::HexBinary::to_vec", "cosmwasm_std::CanonicalAddr::to_vec",
 }
-VP_NAMES_ON_SLICES = {"to_vec", "iter", "as_slice", "as_str", "as_bytes", "as_ref", "into_vec", "to_owned"}
+VP_NAMES_ON_SLICES = {"to_vec", "iter", "iter_mut", "as_slice", "as_mut_slice", "as_str", "as_bytes", "as_ref", "into_vec", "to_owned"}
 
 # higher-order callees: name -> (closure argument index, {closure param (MIR local, env is _1) -> (role, arg index)})
 HOF = {
@@ -87,6 +90,28 @@ HOF = {
 }
 
 
+ITER_NEXT = ("std::iter::Iterator::next", "std::iter::DoubleEndedIterator::next_back")
+FROM_RESIDUAL = "std::ops::FromResidual::from_residual"
+
+
+# iterator adapters that hand on the very elements of the iterator they wrap (possibly fewer / in another order)
+ELEM_PRESERVING = {
+    "std::iter::Iterator::filter", "std::iter::Iterator::rev", "std::iter::Iterator::skip_while", "std::iter::Iterator::take_while",
+    "std::iter::Iterator::peekable", "std::iter::Iterator::by_ref", "std::iter::Iterator::inspect", "std::iter::Iterator::skip",
+    "std::iter::Iterator::take", "std::iter::Iterator::step_by", "std::iter::Iterator::fuse",
+}
+
+
+def strip_adapters(o):
+    """the collection whose elements iterator `o` yields: element-preserving adapters and value-preserving wrappers removed"""
+    while True:
+        o = peel(o)
+        if o[0] == "call" and o[1] in ELEM_PRESERVING and o[2]:
+            o = o[2][0]
+        else:
+            return o
+
+
 def strip_ref_prefix(name):
     return name[6:] if name.startswith("_ref__") else name
 
@@ -113,6 +138,9 @@ class Prov:
         self._defs = {}
         self._closure_sites = {}
         self._mut_idx = {}
+        self._kill_idx = {}
+        self._live = {}
+        self._rl_memo = {}
         self._in_progress = set()
         self._cycle_hits = 0
         self._depth = 0
@@ -213,6 +241,51 @@ class Prov:
             return db in cfg.reachable_from(db)
         return ub in cfg.reachable_from(db)
 
+    def _kills(self, fn, l):
+        """sites that overwrite local l as a whole"""
+        ks = self._kill_idx.get((fn.key, l))
+        if ks is None:
+            ks = {}
+            for kind, bid, i, x in self.defs(fn).get(l, []):
+                if kind in ("assign", "call") and not x["dst"]["p"]:
+                    ks.setdefault(bid, []).append(_idx(i))
+            self._kill_idx[(fn.key, l)] = ks
+        return ks
+
+    def _reaches_live(self, fn, l, dsite, usite):
+        """a partial update of local l made at dsite is still visible at usite: some path from dsite to usite on which
+        l is not re-assigned as a whole (a loop variable is a fresh value in every iteration)"""
+        kills = self._kills(fn, l)
+        if not kills:
+            return self._reaches(fn, dsite, usite)
+        mk = (fn.key, l, dsite, usite)
+        r = self._rl_memo.get(mk)
+        if r is None:
+            r = self._rl_memo[mk] = self._reaches_live0(fn, l, kills, dsite, usite)
+        return r
+
+    def _reaches_live0(self, fn, l, kills, dsite, usite):
+        (db, di), (ub, ui) = dsite, usite
+        di, ui = _idx(di), _idx(ui)
+        if db == ub and di < ui and not any(di < k < ui for k in kills.get(db, ())):
+            return True
+        if any(k > di for k in kills.get(db, ())):
+            return False
+        cfg = cfg_of(fn)
+        seen = set()
+        stack = list(cfg.succ.get(db, []))
+        while stack:
+            x = stack.pop()
+            if x in seen:
+                continue
+            seen.add(x)
+            if x == ub and not any(k < ui for k in kills.get(x, ())):
+                return True
+            if not isinstance(x, tuple) and kills.get(x):
+                continue
+            stack.extend(cfg.succ.get(x, []))
+        return False
+
     def local(self, fn, l, site=None):
         defs = self.defs(fn).get(l, [])
         nsrc = len(defs) + (1 if 1 <= l <= fn.arg_count else 0) + len(self.mut_index(fn).get(l, []))
@@ -242,6 +315,9 @@ class Prov:
     def _local(self, fn, l, site):
         whole = []
         updates = []
+        live = self._live.get(fn.key)
+        if live is None:
+            live = self._live[fn.key] = cfg_of(fn).live_nodes()
         if 1 <= l <= fn.arg_count:
             if fn.kind == "closure" and l == 1:
                 whole.append(("env",))
@@ -252,9 +328,11 @@ class Prov:
         for kind, bid, i, x in self.defs(fn).get(l, []):
             if kind == "setdiscr":
                 continue
-            if site is not None and not self._reaches(fn, (bid, i), site):
-                continue
             proj = x["dst"]["p"]
+            if site is not None and not self._reaches_live(fn, l, (bid, i), site):
+                continue
+            if bid not in live:
+                continue
             path = tuple(e["name"] for e in proj if e["k"] == "field")
             hard = [e for e in proj if e["k"] not in ("field", "deref", "downcast")]
             if kind == "assign":
@@ -273,7 +351,7 @@ class Prov:
                 updates.append((path, o))
         # calls that receive `&mut local` may change it: record them so that taint queries see them
         for mb, mt, mai, mpath in self.mut_index(fn).get(l, []):
-            if site is not None and not self._reaches(fn, (mb, "t"), site):
+            if site is not None and not self._reaches_live(fn, l, (mb, "t"), site):
                 continue
             c = mt["callee"]
             if c["name"] in ("reserve", "reserve_exact", "shrink_to_fit"):
@@ -314,6 +392,9 @@ class Prov:
             a = rv["agg"]
             if a == "adt":
                 name = rv["adt"] + "::" + rv["variant"]
+                if name == "std::result::Result::Err" and len(ops) == 1 and peel(ops[0])[0] == "err":
+                    # `Err(e) => return Err(e.into())` is what `?` does: same origin as the desugared form
+                    return ("call", FROM_RESIDUAL, (peel(ops[0]),), "<std::result::Result as std::ops::FromResidual>::from_residual", (fn.key, "agg"))
                 return ("agg", name, tuple(zip(rv["fields"], ops)))
             if a == "closure":
                 return ("closure", rv["closure"], tuple(zip([strip_ref_prefix(x) for x in rv["fields"]], ops)))
@@ -417,7 +498,13 @@ class Prov:
         if h is None or h[0] != ai or l not in h[1]:
             return ("cparam", l, name, c["key"])
         role, argi = h[1][l]
-        return ("bound", role, self.operand(parent, t["args"][argi], (cb, "t")))
+        src = self.operand(parent, t["args"][argi], (cb, "t"))
+        if role in ("some", "ok", "err"):
+            # the payload of an Option / Result: the same value a `match` arm binds
+            return payload(src, role)
+        if role == "elem":
+            src = strip_adapters(src)
+        return ("bound", role, src)
 
     # ---------------------------------------------------------------- helpers for rules
     def call_args(self, fn, t, bid=None):
@@ -477,7 +564,35 @@ class Prov:
                     out.add((pl["l"], path))
             elif rv["k"] in ("use", "cast") and rv["op"]["k"] in ("copy", "move") and not rv["op"]["place"]["p"]:
                 out |= self._mut_roots(fn, rv["op"]["place"]["l"], depth + 1, seen)
+            elif rv["k"] == "use" and rv["op"]["k"] in ("copy", "move"):
+                # `(*env).captured` where env is a closure value built in this body (spliced closure bodies, A9):
+                # the captured `&mut x` is the reference
+                pl = rv["op"]["place"]
+                fields = [e for e in pl["p"] if e["k"] == "field"]
+                if len(fields) == 1 and all(e["k"] in ("field", "deref") for e in pl["p"]):
+                    cap = self._captured_operand(fn, pl["l"], fields[0]["name"], 0)
+                    if cap is not None and cap["k"] in ("copy", "move") and not cap["place"]["p"]:
+                        out |= self._mut_roots(fn, cap["place"]["l"], depth + 1, seen)
         return out
+
+    def _captured_operand(self, fn, l, field, depth):
+        """local l is (a reference to) a closure value built in this body: the operand captured as `field`"""
+        if depth > 6:
+            return None
+        ds = [d for d in self.defs(fn).get(l, []) if d[0] == "assign" and not d[3]["dst"]["p"]]
+        if len(ds) != 1 or len(self.defs(fn).get(l, [])) != 1:
+            return None
+        rv = ds[0][3]["rv"]
+        if rv["k"] == "aggregate" and rv.get("agg") == "closure":
+            for name, op in zip(rv["fields"], rv["ops"]):
+                if name == field or strip_ref_prefix(name) == strip_ref_prefix(field):
+                    return op
+            return None
+        if rv["k"] == "ref" and all(e["k"] == "deref" for e in rv["place"]["p"]):
+            return self._captured_operand(fn, rv["place"]["l"], field, depth + 1)
+        if rv["k"] in ("use", "cast") and rv["op"]["k"] in ("copy", "move") and all(e["k"] == "deref" for e in rv["op"]["place"]["p"]):
+            return self._captured_operand(fn, rv["op"]["place"]["l"], field, depth + 1)
+        return None
 
 
 # -------------------------------------------------------------------- origin algebra
@@ -488,6 +603,8 @@ def multi(os):
             flat.extend(o[1])
         else:
             flat.append(o)
+    if any(o != ("never",) for o in flat):
+        flat = [o for o in flat if o != ("never",)]
     uniq = []
     seen = set()
     for o in flat:
@@ -510,8 +627,9 @@ def project(o, name, of=""):
     if k == "env":
         return ("upvar", strip_ref_prefix(name))
     if k in ("agg", "closure"):
+        want = strip_ref_prefix(name) if k == "closure" else name
         for f, v in o[2]:
-            if f == name:
+            if f == want:
                 return v
         return ("field", o, name)
     if k == "vp":
@@ -553,6 +671,19 @@ def payload(o, role):
         want = {"ok": ("Ok", "Continue"), "err": ("Err", "Break"), "some": ("Some",)}[role]
         if vn in want and o[2]:
             return o[2][0][1]
+        if o[1].startswith(("std::result::Result::", "std::option::Option::", "std::ops::ControlFlow::")) and vn in ("Ok", "Err", "Some", "None", "Continue", "Break"):
+            return ("never",)      # the payload of the other variant: no value ever flows here
+    if role == "ok" and k == "call" and o[1] == FROM_RESIDUAL:
+        return ("never",)
+    if role == "err" and k == "call" and o[1] == FROM_RESIDUAL and o[2] and peel(o[2][0])[0] == "err":
+        # the error of the Result that `?` builds from the error of X is (the conversion of) X's error
+        return peel(o[2][0])
+    if role == "some" and k in ("call", "upd"):
+        # `for x in I` / `while let Some(x) = it.next()`: x is an element of I, exactly what a closure handed to
+        # I.map / I.filter / I.for_each receives
+        c = peel(o)
+        if c[0] == "call" and c[1] in ITER_NEXT and c[2]:
+            return ("bound", "elem", strip_adapters(c[2][0]))
     return (role, o)
 
 
